@@ -1,5 +1,6 @@
 use crate::rt::{PropSpec, Tier};
 
+pub mod c03;
 pub mod c14;
 
 pub fn shards_16(_t: Tier) -> usize {
@@ -13,5 +14,5 @@ pub fn shards_1(_t: Tier) -> usize {
 }
 
 pub fn registry() -> Vec<PropSpec> {
-    vec![c14::spec()]
+    vec![c03::spec(), c14::spec()]
 }
